@@ -75,6 +75,10 @@ func (c *Chan[T]) sendReady(self *thread) bool {
 	if c.closed || len(c.buf) < c.cap {
 		return true
 	}
+	if c.cap > 0 {
+		// full buffer: a parked receiver takes from the buffer first
+		return false
+	}
 	ts, _ := S.pendingPartners(c, true, self)
 	return len(ts) > 0
 }
@@ -85,6 +89,10 @@ func (c *Chan[T]) recvReady(self *thread) bool {
 	}
 	if len(c.buf) > 0 || c.closed {
 		return true
+	}
+	if c.cap > 0 {
+		// empty buffer: a parked sender is itself enabled and fills the buffer first
+		return false
 	}
 	ts, _ := S.pendingPartners(c, false, self)
 	return len(ts) > 0
@@ -97,7 +105,7 @@ func (c *Chan[T]) doSend(v T) {
 		panic(plainError("send on closed channel"))
 	}
 	// a waiting receiver takes the value directly (buffer is empty then)
-	if len(c.buf) == 0 {
+	if c.cap == 0 {
 		ts, idx := s.pendingPartners(c, true, s.cur)
 		if len(ts) > 0 {
 			k := 0
@@ -124,18 +132,6 @@ func (c *Chan[T]) doRecv() (v T, ok bool) {
 	if len(c.buf) > 0 {
 		v = c.buf[0]
 		c.buf = c.buf[1:]
-		// a sender blocked on the full buffer can now complete
-		ts, idx := s.pendingPartners(c, false, s.cur)
-		if len(ts) > 0 && len(c.buf) < c.cap {
-			k := 0
-			if len(ts) > 1 {
-				k = s.choose(len(ts), false, true, -1, len(ts), "buffer-sender")
-			}
-			o := ts[k].pending
-			o.completed = true
-			o.chosen = idx[k]
-			c.buf = append(c.buf, o.cases[idx[k]].sendVal.(T))
-		}
 		return v, true
 	}
 	if c.closed {
